@@ -606,11 +606,21 @@ def main(tier, seed, replay=None):
                 cases.append(c)
         # histories of evaluators (several sandboxes created and used in one run): own PRNG derived from the seed
         hists = c18_hist.gen_histories(random.Random("c18-hist-%d" % seed), tier)
-    outs, results = run_cases(run, vh, cases)
+    # the history stream runs beside the single-sandbox streams (separate harness processes and coqc runs)
+    import concurrent.futures
     t_h = time.time()
-    houts, hresults = c18_hist.run_histories(run, vh, hists) if hists else ({}, {})
+
+    def hist_job():
+        r = c18_hist.run_histories(run, vh, hists) if hists else ({}, {})
+        return r, round(time.time() - t_h, 1)
+    with concurrent.futures.ThreadPoolExecutor(max_workers=1) as hex_:
+        hfut = hex_.submit(hist_job)
+        outs, results = run_cases(run, vh, cases)
+        t_c = round(time.time() - t_h, 1)
+        (houts, hresults), t_hist = hfut.result()
     hist_cov = c18_hist.judge(run, hists, houts, hresults)
-    hist_cov["wall_s"] = round(time.time() - t_h, 1)
+    hist_cov["wall_s"] = t_hist
+    hist_cov["wall_s_single_sandbox_streams_alongside"] = t_c
     open_sigs = {f["sig"] for f in run.opened}
     hist = {"stream": {}, "mode": {}, "status": {}, "classes_observed": {}, "effects_observed": {}, "quirk_dependent": {}}
     seen, dist, guard_false, incomparable, noted = set(), 0, 0, 0, 0
